@@ -18,7 +18,7 @@ inductive Kind where
   | toks     -- tokens : token | token token | token token_sequence token
   | mid      -- what follows the first token of `tokens`: token_or_range* token
   | alts     -- alternatives : tokens | alternatives '|' tokens
-  | piece    -- a piece of the root concatenation: tokens and jumps in any order
+  | piece    -- a piece of the root concatenation: tokens and jumps, no two jumps adjacent
   deriving Repr, DecidableEq
 
 def maskGood (m : UInt8) : Bool := m == 0xFF || m == 0x00 || m == 0x0F || m == 0xF0
@@ -35,14 +35,20 @@ def isJump : Re → Bool
   | .rangeAny lo hi false => decide (lo ≤ hi) && decide (hi < 65536)
   | _ => false
 
+/-- the sequence does not begin with a jump (consecutive jumps are merged into one by hex_grammar.y) -/
+def noJumpHead : Re → Bool
+  | .rangeAny _ _ _ => false
+  | .cat (.rangeAny _ _ _) _ => false
+  | _ => true
+
 /-- the AST has the shape the grammar symbol `k` builds (n-ary concatenations right-nested, a parenthesised group is one
     child) -/
 def gram : Kind → Re → Bool
   | .tok, .cat a b => gram .tok a && gram .mid b
   | .toks, .cat a b => gram .tok a && gram .mid b
   | .alts, .cat a b => gram .tok a && gram .mid b
-  | .mid, .cat a b => (isJump a || gram .tok a) && gram .mid b
-  | .piece, .cat a b => (isJump a || gram .tok a) && gram .piece b
+  | .mid, .cat a b => ((isJump a && noJumpHead b) || gram .tok a) && gram .mid b
+  | .piece, .cat a b => ((isJump a && noJumpHead b) || gram .tok a) && gram .piece b
   | _, .alt a b => gram .alts a && gram .toks b
   | .piece, r => isJump r || leafTok r
   | _, r => leafTok r
